@@ -116,6 +116,9 @@ class WellShifter:
         shifted = []
         for well in wells.flatten():
             r, c = self.indices_B[well]
+            if r < self.dr or c < self.dc:
+                # (a negative index would silently wrap around to the other end of A)
+                raise IndexError(f"Well {well} of B is outside of the region that A was shifted to.")
             shifted.append(self.wells_A[r - self.dr, c - self.dc])
         return numpy.array(shifted).reshape(wells_shape)
 
